@@ -202,6 +202,10 @@ func c06Preds(rng *rand.Rand, n int) []*predicate.Predicate {
 	ids := []string{"p", "q", "pimmutable", "immutable", "p\x00", "p\x80\x01", "pi", "mmutable"}
 	times := []time.Time{c06T0, c06T0.Add(1), c06T0.Add(-1), c06T0.Add(time.Second), c06T0.In(time.FixedZone("", 3600)), c06T0.In(time.FixedZone("", -7*3600)),
 		c06T0.Add(1).In(time.FixedZone("", 5*3600+1800)), time.Unix(0, 0).UTC(), time.Unix(0, 0).In(time.FixedZone("", 60)), time.Unix(0, -1).UTC(), time.Unix(0, 127), time.Unix(0, 128), time.Unix(0, 16383), time.Unix(0, 16384)}
+	// anchors outside the int64-nanosecond range, each in several zones
+	for _, far := range []time.Time{gen.TFarFuture, gen.TFarPast, time.Date(1, 1, 1, 0, 0, 0, 0, time.UTC), time.Date(9999, 12, 31, 23, 59, 59, 999999999, time.UTC), time.Date(1492, 10, 12, 8, 0, 0, 5, time.UTC), time.Date(3001, 2, 3, 4, 5, 6, 7, time.UTC)} {
+		times = append(times, far, far.In(time.FixedZone("", 3600)), far.In(time.FixedZone("", -7*3600)), far.In(time.FixedZone("", 5*3600+1800)), far.Add(1))
+	}
 	for _, id := range ids {
 		res = append(res, gen.MustImm(id))
 		for _, t := range times {
